@@ -389,7 +389,17 @@ def parse_sf_image(kind, o):
         i += 2
     res["fields"] = fields
     res["data"] = 0 if o[i] == 0 else ("err", o[i + 1])
+    if 7777 in o[i:]:
+        j = i + o[i:].index(7777)
+        res["vm"] = o[j + 1:j + 3]
     return res
+
+
+def strip_probe(o):
+    """the framework-side observation without the validate_mint probes (which the Coq model does not describe)"""
+    if isinstance(o, list) and len(o) >= 3 and o[-3] == 7777:
+        return o[:-3]
+    return o
 
 
 def parse_ref_image(kind, o):
@@ -474,6 +484,13 @@ def predicate(c, s, r):
                 return "%s image accepted by the reference unpack: view rejects it or field values differ" % what
             if c[1] == 1 and (sv["validate"] != 0 or sv["data"] != 0):
                 return "%s image accepted by the reference unpack fails validate()/data() (%s, %s)" % (what, sv["validate"], sv["data"])
+            vm = sv.get("vm")
+            if kind == 1 and c[1] == 1 and vm and vm[0] != 9:
+                if vm[0] != 0:
+                    return ("Mint image accepted by the reference: validate_mint with the decimals / authorities the reference reads "
+                            "from the same image is rejected")
+                if vm[1] != 1:
+                    return "Mint image: validate_mint accepts the opposite freeze-authority expectation"
         return None
     if kind == 3:
         return None if s == r else "associated token address differs from the reference derivation"
@@ -760,7 +777,7 @@ def custom_main(args, tier, seed):
         S, R, MS, MR = run_all(exe, cases, tier, with_model=model_ok)
         for cid, c in cases:
             if model_ok:
-                if S.get(cid) != MS.get(cid):
+                if strip_probe(S.get(cid)) != MS.get(cid):
                     dis_a.append((cid, c))
                 if R.get(cid) != MR.get(cid):
                     dis_b.append((cid, c))
